@@ -1560,7 +1560,8 @@ Proof.
     specialize (H4 false). unfold torn_outcome in H4.
     exists off, s1.
     destruct (Nat.eqb_spec k off) as [->|Hne].
-    + exists nr1. repeat split; try assumption. rewrite Nat.sub_diag in H4. exact H4.
+    + exists nr1. split; [exact H1|]. split; [exact H2|]. split; [exact H3|].
+      rewrite Nat.sub_diag in H4. exact H4.
     + replace (k - off =? 0)%nat with false in H4 by (symmetry; apply Nat.eqb_neq; lia).
       destruct (k - off <? 4)%nat; eexists; (split; [exact H1|]); (split; [exact H2|]);
         (split; [exact H3|]); exact H4.
@@ -1584,7 +1585,7 @@ Proof.
   - intros Hge.
     destruct (torn_apply_ops ops Hwf k ltac:(lia)) as (off & s1 & nr1 & H1 & H2 & H3 & H4).
     specialize (H4 true). unfold torn_outcome in H4.
-    exists off, s1, nr1. repeat split; try assumption.
+    exists off, s1, nr1. split; [exact H1|]. split; [exact H2|]. split; [exact H3|].
     unfold load_deps_old. rewrite H4.
     destruct (Nat.eqb_spec (k - off) 0) as [E|E].
     + rewrite E. reflexivity.
@@ -1695,21 +1696,23 @@ Qed.
 (* ==================================================================================== *)
 (* 11. Garbage after a valid log                                                        *)
 
-Theorem C09_garbage_tail_thm strict f s g :
+Theorem C09_garbage_tail_thm old strict f s g :
   clean strict f s ->
-  match load_deps_gen strict (f ++ g) with
+  match load_deps_ver old strict (f ++ g) with
   | DUnsafe _ => True
   | DOk s' tr nr =>
       extends s s' /\
       match tr with
       | Some off =>
-          (* read_failed: truncated exactly in front of the first malformed record; what is
-             left is a clean file whose records (all of [f]'s and the well-formed ones of
-             [g]) make up s' *)
+          (* truncated exactly in front of the first malformed record (or torn size word);
+             what is left is a clean file whose records (all of [f]'s and the well-formed
+             ones of [g]) make up s' *)
           (length f <= off <= length (f ++ g))%nat /\ clean strict (firstn off (f ++ g)) s'
       | None =>
-          (* end of file reached: whole records plus at most 3 stray bytes *)
-          exists f' stray, f ++ g = f' ++ stray /\ (length stray < 4)%nat /\
+          (* end of file reached.  Current loader: the whole file is clean.  Old loader: up to
+             3 stray bytes may remain *)
+          exists f' stray, f ++ g = f' ++ stray /\
+                           (if old then (length stray < 4)%nat else stray = []) /\
                            (length f <= length f')%nat /\ clean strict f' s'
       end
   | DBadHeader | DFuel => False
@@ -1722,7 +1725,7 @@ Proof.
   destruct (runs_anatomy _ _ _ _ _ Hr2) as (c & -> & Hoff2 & Hext & Hx2).
   assert (Hrun : runs strict l_init (x ++ c ++ y) st' y).
   { eapply runs_trans; [apply Hx|exact Hr2]. }
-  rewrite <- app_assoc, (load_deps_runs _ _ _ _ Hrun Hn).
+  rewrite <- app_assoc, (load_deps_runs old _ _ _ _ Hrun Hn).
   assert (Hcl : clean strict (deps_header ++ x ++ c) (l_s st')).
   { exists (x ++ c), st'. split; [reflexivity|]. split; [|reflexivity].
     eapply runs_trans; [apply Hx|]. specialize (Hx2 []). rewrite app_nil_r in Hx2. exact Hx2. }
@@ -1737,20 +1740,36 @@ Proof.
   assert (Hbounds : (length (deps_header ++ x) <= N.to_nat (l_off st')
                      <= length (deps_header ++ x ++ c ++ y))%nat).
   { rewrite Hlen, !app_length. lia. }
+  assert (Htrunc : extends (l_s st) (l_s st') /\
+                   (length (deps_header ++ x) <= N.to_nat (l_off st')
+                    <= length (deps_header ++ x ++ c ++ y))%nat /\
+                   clean strict (firstn (N.to_nat (l_off st')) (deps_header ++ x ++ c ++ y))
+                         (l_s st')).
+  { split; [exact Hext|]. split; [exact Hbounds|]. rewrite Hcut. exact Hcl. }
+  assert (Hylen : frame y = FEof \/ frame y = FTorn ->
+                  (length y < 4)%nat /\ (frame y = FEof -> y = [])).
+  { unfold frame. destruct y as [|b0 [|b1 [|b2 [|b3 y']]]]; cbn [length rd32].
+    1-4: (intros _; split; [lia|]; try reflexivity; intros Hc; discriminate).
+    destruct ((kMaxRecordSize <? _) || _); [intros [Hc|Hc]; discriminate|].
+    destruct (take _ _) as [[? ?]|]; intros [Hc|Hc]; discriminate. }
   subst s. unfold final.
-  destruct (frame y) as [| |d size buf rest] eqn:Ef.
-  - split; [exact Hext|].
+  destruct (frame y) as [| | |d size buf rest] eqn:Ef.
+  - destruct (Hylen (or_introl eq_refl)) as [_ Hy]. specialize (Hy eq_refl). subst y.
+    split; [exact Hext|].
+    exists (deps_header ++ x ++ c), [].
+    split; [rewrite <- !app_assoc; reflexivity|].
+    split; [destruct old; [cbn; lia|reflexivity]|].
+    split; [rewrite !app_length; lia|exact Hcl].
+  - destruct (Hylen (or_intror eq_refl)) as [Hy _].
+    destruct old; [|exact Htrunc].
+    split; [exact Hext|].
     exists (deps_header ++ x ++ c), y.
     split; [rewrite <- !app_assoc; reflexivity|].
-    split.
-    { unfold frame in Ef. destruct y as [|b0 [|b1 [|b2 [|b3 y']]]]; cbn [length]; try lia.
-      cbn [rd32] in Ef.
-      destruct ((kMaxRecordSize <? _) || _); [discriminate|].
-      destruct (take _ _) as [[? ?]|]; discriminate. }
+    split; [exact Hy|].
     split; [rewrite !app_length; lia|exact Hcl].
-  - split; [exact Hext|]. split; [exact Hbounds|]. rewrite Hcut. exact Hcl.
+  - exact Htrunc.
   - destruct (decode strict (d_paths (l_s st')) d size buf) eqn:Ed.
-    + split; [exact Hext|]. split; [exact Hbounds|]. rewrite Hcut. exact Hcl.
+    + exact Htrunc.
     + exact I.
     + unfold step in Hn. rewrite Ef, Ed in Hn. discriminate.
     + unfold step in Hn. rewrite Ef, Ed in Hn. discriminate.
@@ -1842,13 +1861,14 @@ Proof.
     + cbn [andb]. destruct (negb _ || _); discriminate.
 Qed.
 
-Lemma load_loop_safe strict : forall fuel st x,
+Lemma load_loop_safe old strict : forall fuel st x,
   forallb (record_safe strict) (frames_of fuel x) = true ->
-  forall w, load_loop strict fuel st x <> DUnsafe w.
+  forall w, load_loop old strict fuel st x <> DUnsafe w.
 Proof.
   induction fuel as [|fuel IH]; intros st x Hs w; [discriminate|].
   cbn [load_loop]. cbn [frames_of] in Hs.
   destruct (frame x) as [| | |d size buf rest] eqn:Ef; try discriminate.
+  { destruct old; discriminate. }
   destruct (frame_rec _ _ _ _ _ Ef) as (hd & _ & _ & Hbuf & _).
   cbn [forallb] in Hs. apply andb_true_iff in Hs. destruct Hs as [Hs1 Hs2].
   pose proof (decode_safe strict (d_paths (l_s st)) d size buf Hbuf Hs1) as Hd.
@@ -1860,10 +1880,10 @@ Qed.
 
 (* On every file whose framed records avoid the listed classes the loader has no undefined
    behaviour (and it always terminates: load_deps_never_fuel). *)
-Theorem C13_depslog_bounds_partial_thm strict f :
-  safe_file strict f = true -> forall w, load_deps_gen strict f <> DUnsafe w.
+Theorem C13_depslog_bounds_partial_thm old strict f :
+  safe_file strict f = true -> forall w, load_deps_ver old strict f <> DUnsafe w.
 Proof.
-  unfold safe_file, load_deps_gen. destruct (take 16 f) as [[h x]|]; [|discriminate].
+  unfold safe_file, load_deps_ver. destruct (take 16 f) as [[h x]|]; [|discriminate].
   intros Hs w. destruct (bytes_eqb h deps_header); [|discriminate].
   apply load_loop_safe. exact Hs.
 Qed.
@@ -1888,26 +1908,47 @@ Proof.
   split; [apply H1|]. unfold kMaxIds in *. lia.
 Qed.
 
-(* Except for the cuts that leave 1 to 3 bytes of a size word, a session that starts from a
-   torn log is consistent: the load after it sees the records that were complete at the cut
-   (state s1) updated by everything the session recorded, and the file is clean again. *)
-Theorem C09_torn_next_session_partial_thm ops ops2 :
+Lemma wf_ops_app_r a b : wf_ops (a ++ b) -> wf_ops b.
+Proof.
+  intros [H1 H2]. apply forallb_app_true in H1. rewrite mentions_app in H2.
+  split; [apply H1|]. unfold kMaxIds in *. lia.
+Qed.
+
+(* A load that truncates to a clean prefix with the same state and recompaction flag starts the
+   same session as a load of that prefix. *)
+Lemma session_truncated old strict live f g off s nr ops :
+  load_deps_ver old strict f = DOk s (Some off) nr ->
+  load_deps_ver old strict g = DOk s None nr ->
+  g = firstn off f ->
+  session_ver old strict live f ops = session_ver old strict live g ops.
+Proof.
+  intros Hf Hg ->. unfold session_ver. rewrite Hf, Hg. reflexivity.
+Qed.
+
+(* Both loaders.  [old = false]: every cut.  [old = true]: every cut except those that leave 1
+   to 3 bytes of a size word.  The session that starts from the torn log is consistent: the load
+   after it sees the records that were complete at the cut (state s1) updated by everything the
+   session recorded, and the file is clean again. *)
+Theorem torn_next_session old ops ops2 :
   wf_ops (ops ++ ops2) ->
   forall k, (16 <= k <= length (apply_ops [] ops))%nat ->
   exists off s1,
     (16 <= off <= k)%nat /\
     clean true (firstn off (apply_ops [] ops)) s1 /\
     (forall j s', (off < j <= k)%nat -> ~ clean true (firstn j (apply_ops [] ops)) s') /\
-    (k = off \/ (off + 4 <= k)%nat ->
+    (old = false \/ k = off \/ (off + 4 <= k)%nat ->
      exists s' nr,
-       load_deps (apply_ops (firstn k (apply_ops [] ops)) ops2) = DOk s' None nr /\
+       load_deps_ver old true
+         (session_ver old true (fun _ => true) (firstn k (apply_ops [] ops)) ops2)
+       = DOk s' None nr /\
        forall o, view s' o = upd (view s1) ops2 o).
 Proof.
   intros Hwf k Hk.
   pose proof (wf_ops_app_l _ _ Hwf) as Hwf1.
   destruct (apply_ops_clean ops Hwf1) as (s & [Cl (x & Hx & Kx)] & Ok & _ & Hincl & _).
   set (file := apply_ops [] ops) in *.
-  destruct (torn_clean true file s Cl k Hk) as (off & s1 & nr1 & Hoff & Cl1 & Hmax & Hext & Hload).
+  destruct (torn_clean true file s Cl k Hk)
+    as (off & s1 & nr1 & Hoff & Cl1 & Hmax & Hext & Hloadoff & Hload).
   exists off, s1. split; [exact Hoff|]. split; [exact Cl1|]. split; [exact Hmax|].
   (* the state at the cut is well-formed, and the cut file is an oclean file *)
   assert (Hfo : firstn off file = deps_header ++ firstn (off - 16) x).
@@ -1931,26 +1972,91 @@ Proof.
   assert (HU2 : Forall (fun op => incl (op_paths op) U) ops2).
   { pose proof (op_paths_incl (ops ++ ops2)) as HF. apply Forall_app in HF. apply HF. }
   apply forallb_app_true in Hwfb. destruct Hwfb as [_ Hwf2].
-  intros [Heq|Hge].
-  - (* cut on a record boundary *)
-    subst k.
-    destruct (session_spec true (fun _ => true) U _ s1 ops2 HU OCl1 Ok1 Hin1 HU2 Hwf2)
+  (* a session that starts from the clean cut *)
+  assert (Hclean_case :
+    exists s' nr,
+      load_deps_ver old true (session_ver old true (fun _ => true) (firstn off file) ops2)
+      = DOk s' None nr /\ forall o, view s' o = upd (view s1) ops2 o).
+  { destruct (session_spec old true (fun _ => true) U _ s1 ops2 HU OCl1 Ok1 Hin1 HU2 Hwf2)
       as (s' & nr & _ & OCl' & _ & _ & V').
-    destruct (clean_load _ _ _ (proj1 OCl')) as [nr' Hl'].
+    destruct (clean_load old _ _ _ (proj1 OCl')) as [nr' Hl'].
     exists s', nr'. split; [exact Hl'|].
     intros o. rewrite V'. unfold upd. destruct (abstract_ops ops2 o); [reflexivity|].
-    destruct nr; reflexivity.
-  - (* at least the size word of the torn record survived: Load truncates *)
-    replace (k - off <? 4)%nat with false in Hload by (symmetry; apply Nat.ltb_ge; lia).
-    destruct (run_ops_spec true U HU ops2 s1 Ok1 Hin1 HU2 Hwf2)
-      as (s' & w & E & _ & _ & W & _ & V').
-    assert (Hsess : apply_ops (firstn k file) ops2 = firstn off file ++ w).
-    { unfold apply_ops, session, session_gen. fold (load_deps (firstn k file)).
-      unfold load_deps at 1. rewrite Hload, E.
-      rewrite firstn_firstn. replace (Nat.min off k) with off by lia. reflexivity. }
-    rewrite Hsess.
-    destruct (clean_load _ _ _ (clean_append _ _ _ _ _ Cl1 W)) as [nr' Hl'].
-    exists s', nr'. split; [exact Hl'|exact V'].
+    destruct nr; reflexivity. }
+  intros Hcase. specialize (Hload old). unfold torn_outcome in Hload.
+  destruct (Nat.eqb_spec (k - off) 0) as [E0|E0].
+  - (* cut on a record boundary *)
+    assert (k = off) by lia. subst k. exact Hclean_case.
+  - destruct (Nat.ltb_spec (k - off) 4) as [E4|E4].
+    + (* 1..3 bytes of a size word survive: only the current loader is claimed *)
+      destruct old.
+      { exfalso. destruct Hcase as [Hc|[Hc|Hc]]; [discriminate|lia|lia]. }
+      rewrite (session_truncated false true (fun _ => true) (firstn k file) (firstn off file)
+                 off s1 nr1 ops2 Hload (Hloadoff false)).
+      * exact Hclean_case.
+      * rewrite firstn_firstn. replace (Nat.min off k) with off by lia. reflexivity.
+    + (* at least the size word of the torn record survived: read_failed, truncation *)
+      destruct (run_ops_spec true U HU ops2 s1 Ok1 Hin1 HU2 Hwf2)
+        as (s' & w & E & _ & _ & W & _ & V').
+      assert (Hsess : session_ver old true (fun _ => true) (firstn k file) ops2
+                      = firstn off file ++ w).
+      { unfold session_ver. rewrite Hload, E.
+        rewrite firstn_firstn. replace (Nat.min off k) with off by lia. reflexivity. }
+      rewrite Hsess.
+      destruct (clean_load old _ _ _ (clean_append _ _ _ _ _ Cl1 W)) as [nr' Hl'].
+      exists s', nr'. split; [exact Hl'|exact V'].
+Qed.
+
+(* C09_torn_next_session (current loader): EVERY cut. *)
+Theorem C09_torn_next_session_thm ops ops2 :
+  wf_ops (ops ++ ops2) ->
+  forall k, (k <= length (apply_ops [] ops))%nat ->
+  ((k < 16)%nat ->
+   (* header torn: the log starts over; the session's records are all there is *)
+   exists s' nr,
+     load_deps (apply_ops (firstn k (apply_ops [] ops)) ops2) = DOk s' None nr /\
+     forall o, view s' o = spec_view (abstract_ops ops2 o)) /\
+  ((16 <= k)%nat ->
+   exists off s1,
+     (16 <= off <= k)%nat /\
+     clean true (firstn off (apply_ops [] ops)) s1 /\
+     (forall j s', (off < j <= k)%nat -> ~ clean true (firstn j (apply_ops [] ops)) s') /\
+     exists s' nr,
+       load_deps (apply_ops (firstn k (apply_ops [] ops)) ops2) = DOk s' None nr /\
+       forall o, view s' o = upd (view s1) ops2 o).
+Proof.
+  intros Hwf k Hk. split.
+  - intros Hlt.
+    destruct (C09_roundtrip_thm ops2 (wf_ops_app_r _ _ Hwf)) as (s' & nr & Hl & Hv).
+    exists s', nr. split; [|exact Hv].
+    replace (apply_ops (firstn k (apply_ops [] ops)) ops2) with (apply_ops [] ops2); [exact Hl|].
+    unfold apply_ops, session, session_gen, session_ver.
+    rewrite (torn_header false true _ k Hlt).
+    replace (load_deps_ver false true []) with DBadHeader by reflexivity. reflexivity.
+  - intros Hge.
+    destruct (torn_next_session false ops ops2 Hwf k ltac:(lia))
+      as (off & s1 & H1 & H2 & H3 & H4).
+    exists off, s1. split; [exact H1|]. split; [exact H2|]. split; [exact H3|].
+    exact (H4 (or_introl eq_refl)).
+Qed.
+
+(* The OLD loader: every cut except those that leave 1 to 3 bytes of a size word. *)
+Theorem C09_torn_next_session_old_partial_thm ops ops2 :
+  wf_ops (ops ++ ops2) ->
+  forall k, (16 <= k <= length (apply_ops [] ops))%nat ->
+  exists off s1,
+    (16 <= off <= k)%nat /\
+    clean true (firstn off (apply_ops [] ops)) s1 /\
+    (forall j s', (off < j <= k)%nat -> ~ clean true (firstn j (apply_ops [] ops)) s') /\
+    (k = off \/ (off + 4 <= k)%nat ->
+     exists s' nr,
+       load_deps_old (apply_ops_old (firstn k (apply_ops [] ops)) ops2) = DOk s' None nr /\
+       forall o, view s' o = upd (view s1) ops2 o).
+Proof.
+  intros Hwf k Hk.
+  destruct (torn_next_session true ops ops2 Hwf k Hk) as (off & s1 & H1 & H2 & H3 & H4).
+  exists off, s1. split; [exact H1|]. split; [exact H2|]. split; [exact H3|].
+  intros Hc. exact (H4 (or_intror Hc)).
 Qed.
 
 (* NUL-free, non-empty paths within the record-size limit are well-formed. *)
